@@ -14,7 +14,6 @@ import (
 	"go/printer"
 	"go/token"
 	"path/filepath"
-	"sort"
 	"strings"
 )
 
@@ -88,32 +87,6 @@ func (fc *factsCtx) findStructField(typ, field string) string {
 	return ""
 }
 
-func (fc *factsCtx) structFields(typ string) []string {
-	var res []string
-	for _, f := range fc.files {
-		for _, d := range f.Decls {
-			gd, ok := d.(*ast.GenDecl)
-			if !ok {
-				continue
-			}
-			for _, sp := range gd.Specs {
-				ts, ok := sp.(*ast.TypeSpec)
-				if !ok || ts.Name.Name != typ {
-					continue
-				}
-				if st, ok := ts.Type.(*ast.StructType); ok {
-					for _, fl := range st.Fields.List {
-						for _, n := range fl.Names {
-							res = append(res, n.Name+" "+fc.render(fl.Type))
-						}
-					}
-				}
-			}
-		}
-	}
-	return res
-}
-
 // returnsOf lists the return statements of a function body (not descending
 // into function literals) together with the statement that precedes each one
 // in its block.
@@ -172,91 +145,11 @@ func returnsOf(body *ast.BlockStmt) []retInfo {
 	return res
 }
 
-func (fc *factsCtx) releaseFacts() map[string]any {
-	fd := fc.findFunc("Garbled", "Release")
-	if fd == nil {
-		return map[string]any{"missing": true}
-	}
-	var stmts []string
-	for _, s := range fd.Body.List {
-		stmts = append(stmts, fc.render(s))
-	}
-	return map[string]any{"statements": stmts, "receiver": fc.render(fd.Recv.List[0].Type)}
-}
-
-func (fc *factsCtx) poolFacts() map[string]any {
-	fd := fc.findFunc("Circuit", "garbleScratchPool")
-	if fd == nil {
-		return map[string]any{"missing": true}
-	}
-	res := map[string]any{}
-	var ops []string
-	ast.Inspect(fd.Body, func(n ast.Node) bool {
-		if ce, ok := n.(*ast.CallExpr); ok {
-			s := fc.render(ce)
-			if strings.HasPrefix(s, "c.garblePool.") {
-				ops = append(ops, strings.TrimPrefix(s, "c.garblePool."))
-			}
-		}
-		return true
-	})
-	res["atomic_ops"] = ops
-	var rets []string
-	for _, r := range returnsOf(fd.Body) {
-		rets = append(rets, fc.render(r.ret))
-	}
-	res["returns"] = rets
-	// every other mention of garblePool in the package
-	var others []string
-	for name, f := range fc.files {
-		ast.Inspect(f, func(n ast.Node) bool {
-			if fdd, ok := n.(*ast.FuncDecl); ok && fdd == fd {
-				return false
-			}
-			if se, ok := n.(*ast.SelectorExpr); ok && se.Sel.Name == "garblePool" {
-				others = append(others, filepath.Base(name)+":"+fc.render(se))
-			}
-			return true
-		})
-	}
-	sort.Strings(others)
-	res["other_uses_of_garblePool"] = others
-	res["field_type"] = fc.findStructField("Circuit", "garblePool")
-	// the New function: fresh buffers per scratch
-	var newRet []string
-	ast.Inspect(fd.Body, func(n ast.Node) bool {
-		if fl, ok := n.(*ast.FuncLit); ok {
-			for _, r := range returnsOf(fl.Body) {
-				if len(r.ret.Results) == 1 {
-					if u, ok := r.ret.Results[0].(*ast.UnaryExpr); ok {
-						if cl, ok := u.X.(*ast.CompositeLit); ok {
-							for _, el := range cl.Elts {
-								if kv, ok := el.(*ast.KeyValueExpr); ok {
-									v := "?"
-									if ce, ok := kv.Value.(*ast.CallExpr); ok {
-										v = fc.render(ce.Fun)
-									}
-									newRet = append(newRet, fc.render(kv.Key)+"="+v)
-								}
-							}
-						}
-					}
-				}
-			}
-		}
-		return true
-	})
-	sort.Strings(newRet)
-	res["new_scratch_fields"] = newRet
-	return res
-}
-
 func runFacts(repo string) (map[string]any, error) {
 	px, err := loadPkg(filepath.Join(repo, "circuit"))
 	if err != nil {
 		return nil, err
 	}
-	fc := px.fc
 	res := map[string]any{}
 	eff := map[string]any{}
 	for _, fn := range [][2]string{{"Circuit", "Garble"}, {"Circuit", "Eval"}, {"Circuit", "Compute"},
@@ -271,12 +164,8 @@ func runFacts(repo string) (map[string]any, error) {
 	res["put_paths"] = px.putPathFacts()
 	res["release_shape"] = px.releaseShape()
 	res["garblePool_ops"] = px.poolFieldOps()
-	res["garblePool_type"] = fc.findStructField("Circuit", "garblePool")
+	_, ptype := px.poolField()
+	res["garblePool_type"] = ptype
 	res["new_scratch"] = px.newScratch()
-	// advisory (textual) facts
-	res["Garbled_fields"] = fc.structFields("Garbled")
-	res["garbledScratch_fields"] = fc.structFields("garbledScratch")
-	res["Release_statements"] = fc.releaseFacts()
-	res["garbleScratchPool_text"] = fc.poolFacts()
 	return res, nil
 }
